@@ -57,14 +57,28 @@ pub fn drive(args: &HashMap<String, String>) {
         if i % 3 == 0 {
             g.o.depth = 2;
         }
+        // parameter names from all over the alphabet (whatever sorts or compares names meets every order): every second
+        // program spells P<k> with a first letter that depends on k
+        let spread = |s: &str| if let Some(rest) = s.strip_prefix('P') {
+            let k: usize = rest.bytes().filter(|b| b.is_ascii_digit()).fold(0usize, |a, b| a * 10 + (b - b'0') as usize);
+            format!("{}{}", ["b", "x", "h", "r", "k", "z", "m", "t", "d", "v"][k % 10], rest.to_lowercase())
+        } else { s.to_string() };
+        if i % 2 == 1 {
+            progs.push(g.program().rename_vars(&spread));
+            continue;
+        }
         progs.push(g.program().rename_vars(&lower));
     }
     // UseLadder: the second parameter is used through every chain of two constructs (it must never be reported)
+    let late = |s: &str| match s { "p1" => "r1".to_string(), "p2" => "x2".to_string(), o => o.to_string() };
     for (p, _) in crate::p_compile::use_ladder(true) {
+        // ... once more with parameter names from the end of the alphabet
+        progs.push(p.rename_vars(&late));
         progs.push(p);
     }
     // ModLadder: the parameter reaches the result through a nested (mod ..) or a function used as a value
     for (p, _) in crate::p_compile::rec_ladder(true) {
+        progs.push(p.rename_vars(&late));
         progs.push(p);
     }
     for (p, _) in crate::p_compile::mod_ladder() {
